@@ -25,7 +25,11 @@ RULE = ('n in 1..40 x batch_size in 1..n+3 x 0-3 extra args x {tensor, tuple, li
         'autograd state before the call varied (per-module training flags: all training / all eval / root '
         'eval with bn and/or dropout in training mode / root training with a child in eval mode), X 2-D/3-D, args 1-D/2-D int64/float32, passed as '
         'tuple/list/None; per-example-distinct values in X and in every arg (independent '
-        'permutations); plus a stream with an args entry of another leading dimension (must raise) '
+        'permutations); args keep their own dtype: float32 / float64 / float16 / int64 / int32 / bool on a '
+        'float32 or float64 model, including float64 values not representable in float32 (odd integers '
+        'above 2^24, t + 2^-30) - recorded rows are exact (integers scaled by a per-arg power of two) and '
+        'carry the dtype the model received; X float32 / float64 / int64 (cast to the parameter dtype by '
+        'design); plus a stream with an args entry of another leading dimension (must raise) '
         'and batch sizes <= 0 (outside the property: anything goes); non-trivial = n mod b != 0, or '
         'args present with per-example-distinct values')
 EXHAUSTIVE = {'quick': False, 'thorough': True}
@@ -40,7 +44,15 @@ ASSUMPTIONS = ['the user model acts example-wise in evaluation mode (Section var
 SHARD = 150
 
 
+DTYPES = {'f32': torch.float32, 'f64': torch.float64, 'f16': torch.float16, 'i64': torch.int64,
+          'bool': torch.bool, 'i32': torch.int32, 'int': torch.int64, 'float': torch.float32}
+# dtype codes of the Coq model (cr_adt / c_adt)
+DCODE = {torch.float32: 0, torch.float64: 1, torch.float16: 2, torch.int64: 3, torch.bool: 4, torch.int32: 5}
+
+
 class Recorder(torch.nn.Module):
+    """X goes through batch-norm and dropout in the parameters' dtype; the args bypass them and are
+    encoded in float64, so an arg value that needs more than 24 significant bits stays exact"""
     def __init__(self, width, kind, heads):
         super().__init__()
         self.bn = torch.nn.BatchNorm1d(width, eps=0.0)
@@ -51,38 +63,60 @@ class Recorder(torch.nn.Module):
     def forward(self, X, *args):
         self.log.append(([bool(m.training) for m in self.modules()], bool(torch.is_grad_enabled()),
                          X.detach().clone(), [a.detach().clone() for a in args]))
-        z = torch.cat([X.reshape(X.shape[0], -1).float()] +
-                      [a.reshape(a.shape[0], -1).float() for a in args], dim=1)
-        z = self.drop(self.bn(z))
+        x = self.drop(self.bn(X.reshape(X.shape[0], -1)))
+        z = torch.cat([x.double()] + [a.reshape(a.shape[0], -1).double() for a in args], dim=1)
         if self.kind == 'tensor':
             return z
         outs = [z * float(j + 1) for j in range(self.heads)]
         return tuple(outs) if self.kind == 'tuple' else outs
 
 
-def rows_of(t):
-    """tensor with leading dimension n -> n flattened integer rows, or None if not integral"""
+def rows_of(t, exps=None):
+    """tensor with leading dimension n -> n flattened rows of exact integers value * 2^exp (one
+    exponent per column, default 0), or None if some entry is not such an integer"""
     t = t.detach().cpu().reshape(t.shape[0], -1).double()
-    if not bool(torch.equal(t, t.round())) or not bool(torch.isfinite(t).all()):
+    if not bool(torch.isfinite(t).all()):
+        return None
+    if exps is not None and t.shape[0] and len(exps) == t.shape[1]:
+        t = t * torch.tensor([2.0 ** e for e in exps], dtype=torch.float64)[None, :]
+    if not bool(torch.equal(t, t.round())) or bool((t.abs() >= 2.0 ** 62).any()):
         return None
     return t.to(torch.int64).tolist()
 
 
+def arg_exp(a):
+    return int(a.get('exp', 0))
+
+
+def arg_width(a):
+    w = 1
+    for d in a['shape']:
+        w *= d
+    return w
+
+
 def build(inp):
+    """X holds small integers (exact in every dtype used); arg rows are integers z, the tensor
+    holds z / 2^exp in the arg's own dtype (the generator only asks for representable values)"""
     n = len(inp['X'])
-    X = torch.tensor(inp['X'], dtype=torch.float32).reshape([n] + list(inp['xshape']))
+    X = torch.tensor(inp['X'], dtype=DTYPES[inp.get('xdtype', 'f32')]).reshape([n] + list(inp['xshape']))
     args = []
     for a in inp['args']:
-        dt = torch.int64 if a['dtype'] == 'int' else torch.float32
-        args.append(torch.tensor(a['rows'], dtype=dt).reshape([len(a['rows'])] + list(a['shape'])))
+        t = torch.tensor(a['rows'], dtype=torch.float64).reshape([len(a['rows'])] + list(a['shape']))
+        t = (t / 2.0 ** arg_exp(a)).to(DTYPES[a['dtype']])
+        args.append(t)
     return X, args
 
 
 def width_of(inp):
-    w = len(inp['X'][0]) if inp['X'] else 1
+    return max(len(inp['X'][0]) if inp['X'] else 1, 1)
+
+
+def out_exps(inp):
+    e = [0] * width_of(inp)
     for a in inp['args']:
-        w += len(a['rows'][0]) if a['rows'] else 0
-    return max(w, 1)
+        e += [arg_exp(a)] * arg_width(a)
+    return e
 
 
 def modes_of(inp):
@@ -95,7 +129,8 @@ def run_impl(inp):
     from tangermeme.predict import predict
     X, args = build(inp)
     X0, args0 = X.clone(), [a.clone() for a in args]
-    model = Recorder(width_of(inp), inp['kind'], inp['heads'])
+    model = Recorder(width_of(inp), inp['kind'], inp['heads']).to(DTYPES[inp.get('mdtype', 'f32')])
+    oe = out_exps(inp)
     # the history of the module before the call: a training flag per module of model.modules()
     # (root, bn, drop) -- e.g. model.eval(); model.drop.train() gives [False, False, True]
     for m, t in zip(model.modules(), modes_of(inp)):
@@ -113,16 +148,19 @@ def run_impl(inp):
         with torch.set_grad_enabled(bool(inp['grad0'])):
             y = predict(model, X, args=pargs, batch_size=inp['b'], device='cpu')
         if isinstance(y, torch.Tensor):
-            out.update(ok=True, ytype='T', y=rows_of(y))
+            out.update(ok=True, ytype='T', y=rows_of(y, oe))
         elif isinstance(y, (list, tuple)):
-            out.update(ok=True, ytype='M', y=[rows_of(h) for h in y])
+            out.update(ok=True, ytype='M', y=[rows_of(h, oe) for h in y])
         else:
             out.update(ok=True, ytype='?', y=None)
     except Exception as e:
         out['error'] = type(e).__name__
     trace = []
     for tr, gr, Xw, Aw in model.log:
-        trace.append({'tr': tr, 'gr': gr, 'X': rows_of(Xw), 'args': [rows_of(a) for a in Aw]})
+        trace.append({'tr': tr, 'gr': gr, 'X': rows_of(Xw),
+                      'args': [rows_of(a, [arg_exp(sp)] * arg_width(sp)) if k < len(inp['args']) else rows_of(a)
+                               for k, (a, sp) in enumerate(zip(Aw, inp['args'] + [{}] * len(Aw)))],
+                      'adt': [DCODE.get(a.dtype, 99) for a in Aw]})
     out['trace'] = trace
     out['buffers_unchanged'] = bool(all(torch.equal(a, b) for a, b in zip(model.buffers(), buf0)))
     out['unchanged'] = bool(torch.equal(X, X0) and X.dtype == X0.dtype and
@@ -139,9 +177,10 @@ def rows_lit(r):
 
 def coq_case(inp, out):
     kind = {'tensor': 'KTensor', 'tuple': 'KTuple', 'list': 'KList'}[inp['kind']]
-    call = '(Call %s %s (MS %s %s) %s %s %s)' % (
+    call = '(Call %s %s (MS %s %s) %s %s %s %s)' % (
         kind, C.nat(inp['heads']), C.lst([C.boolean(t) for t in modes_of(inp)]), C.boolean(inp['grad0']), C.z(inp['b']),
-        C.zmat(inp['X']), C.lst([C.zmat(a['rows']) for a in inp['args']]))
+        C.zmat(inp['X']), C.lst([C.zmat(a['rows']) for a in inp['args']]),
+        C.natlist([DCODE[DTYPES[a['dtype']]] for a in inp['args']]))
     if not out['ok']:
         val = 'Err'
     elif out['ytype'] == 'T':
@@ -150,8 +189,8 @@ def coq_case(inp, out):
         val = '(Ok (YM %s))' % C.lst([rows_lit(h) for h in out['y']])
     else:
         val = '(Ok (YT %s))' % POISON
-    trace = C.lst(['(CR %s %s %s %s)' % (C.lst([C.boolean(x) for x in t['tr']]), C.boolean(t['gr']), rows_lit(t['X']),
-                                         C.lst([rows_lit(a) for a in t['args']]))
+    trace = C.lst(['(CR %s %s %s %s %s)' % (C.lst([C.boolean(x) for x in t['tr']]), C.boolean(t['gr']), rows_lit(t['X']),
+                                            C.lst([rows_lit(a) for a in t['args']]), C.natlist(t['adt']))
                    for t in out['trace']])
     return '(%s, (%s, %s), %s, %s)' % (call, val, trace, C.boolean(out['unchanged']),
                                        C.boolean(out.get('buffers_unchanged', True)))
@@ -182,8 +221,10 @@ def hist_key(inp, out):
         rel = 'b=n'
     else:
         rel = 'b|n' if n % b == 0 else 'b!|n'
-    return '%s/args%d/%s/%s/%s' % (inp['kind'], len(inp['args']), state_class(inp), rel,
-                                   'ok' if out['ok'] else 'raise')
+    md = inp.get('mdtype', 'f32')
+    dts = 'same-dtype' if all(a['dtype'] in (md, 'float' if md == 'f32' else md) for a in inp['args']) else 'other-dtype'
+    return '%s/args%d/%s/%s/%s/%s/%s' % (inp['kind'], len(inp['args']), state_class(inp), 'model-' + md,
+                                         dts if inp['args'] else 'noargs', rel, 'ok' if out['ok'] else 'raise')
 
 
 def state_class(inp):
@@ -214,6 +255,26 @@ def pick_state(rng):
     return rng.choice(STATES[5:])
 
 
+# Arg flavours: dtype, scale exponent (value = z / 2^exp), first column as a function of (arg index,
+# example tag).  The args keep their own dtype whatever the parameters' dtype is; several flavours
+# hold values that are NOT representable in float32 (more than 24 significant bits), so a cast of the
+# arg on its way to the model changes the value the model sees, not only the dtype.
+FLAVOUR = {
+    'i64-small': ('i64', 0, lambda k, t: 100 * (k + 1) + t),
+    'f32-small': ('f32', 0, lambda k, t: 100 * (k + 1) + t),
+    'f64-small': ('f64', 0, lambda k, t: 100 * (k + 1) + t),
+    'f64-big': ('f64', 0, lambda k, t: 2 ** 24 + 1 + 2 * t + 200 * k),         # odd, above 2^24
+    'f64-fine': ('f64', 30, lambda k, t: (10 * k + t) * 2 ** 30 + 1),            # t + 2^-30
+    'i64-big': ('i64', 0, lambda k, t: 2 ** 40 + 1 + 2 * t + 200 * k),
+    'f16': ('f16', 0, lambda k, t: 100 * (k + 1) + t),
+    'f16-fine': ('f16', 3, lambda k, t: 8 * t + 1),                              # t + 1/8
+    'i32': ('i32', 0, lambda k, t: 100 * (k + 1) + t),
+    'bool': ('bool', 0, lambda k, t: t % 2),
+}
+FLAVOURS = ['i64-small', 'f32-small', 'f32-small', 'f64-small', 'f64-big', 'f64-big', 'f64-fine', 'f64-fine',
+            'i64-big', 'f16', 'f16-fine', 'i32', 'bool']
+
+
 def make(rng, n, b, nargs, kind, misalign=None):
     """one input; every arg gets its own permutation of example tags"""
     xshape = rng.choice([[1], [1], [2], [2, 1], [1, 2]])
@@ -232,10 +293,15 @@ def make(rng, n, b, nargs, kind, misalign=None):
             m = misalign[1]
         tags = list(range(1, m + 1))
         rng.shuffle(tags)
-        rows = [[100 * (k + 1) + tags[i]] + [rng.randint(0, 9) for _ in range(w - 1)] for i in range(m)]
-        args.append({'rows': rows, 'shape': shape, 'dtype': rng.choice(['int', 'float'])})
+        fl = rng.choice(FLAVOURS)
+        dt, exp, first = FLAVOUR[fl]
+        rows = [[first(k, tags[i])] + [(rng.randint(0, 1) if dt == 'bool' else rng.randint(0, 9) * 2 ** exp)
+                                       for _ in range(w - 1)] for i in range(m)]
+        args.append({'rows': rows, 'shape': shape, 'dtype': dt, 'exp': exp, 'flavour': fl})
     return {'kind': kind, 'heads': 1 if kind == 'tensor' else rng.randint(1, 3),
             'modes': pick_state(rng), 'grad0': rng.random() < 0.5, 'b': b,
+            'mdtype': 'f64' if rng.random() < 0.15 else 'f32',
+            'xdtype': rng.choice(['f32'] * 6 + ['f64', 'i64']),
             'X': X, 'xshape': xshape, 'args': args,
             'args_form': rng.choice(['tuple', 'list', 'none'] if nargs == 0 else ['tuple', 'list'])}
 
